@@ -7,6 +7,8 @@
  *
  * Cases (extra trailing fields are ignored; the model driver needs the configuration there):
  *   byname <k> <hexname>   -> ok <called:SYM|unknown|fault> <doesNameExist 0/1> <getIdFromName>
+ *   dispatch out <hexname> -> ok <called:SYM|unknown|fault> <1 iff the output got the message and CFG->output_arg | ->
+ *                             (snoopy_outputregistry_dispatch with CFG->output = name; snoopy_configuration_get is provided here)
  *   byid   <k> <int>       -> ok <called:SYM|unknown|fault> <getName or ~>
  *   count  <k>             -> ok <getCount>
  *   gid <hexlist> <hexname> / gcount <hexlist> / gname <hexlist> <i> / gidexist <hexlist> <i> / gnameexist <hexlist> <hexname>
@@ -19,8 +21,15 @@
 #include "filterregistry.h"
 #include "outputregistry.h"
 
+#include "configuration.h"
+
 extern const char *verif_last_called;
 extern int verif_calls;
+extern const void *verif_last_a0, *verif_last_a1;     /* output stubs: the logMessage and arg pointers they were handed */
+
+/* the configuration the registries see (outputregistry.c: dispatch reads CFG->output / CFG->output_arg) */
+static snoopy_configuration_t verif_cfg;
+snoopy_configuration_t *snoopy_configuration_get(void) { return &verif_cfg; }
 
 static void outcome(FILE *o, int ret) {
     if (verif_calls == 1 && verif_last_called) fprintf(o, "called:%s", verif_last_called);
@@ -40,6 +49,16 @@ static void handle(int nf, char **f, FILE *o) {
         else if (!strcmp(f[1], "flt")) { ret = snoopy_filterregistry_callByName(n.p, ""); ex = snoopy_filterregistry_doesNameExist(n.p); id = snoopy_filterregistry_getIdFromName(n.p); }
         else { ret = snoopy_outputregistry_callByName(n.p, "msg", ""); ex = snoopy_outputregistry_doesNameExist(n.p); id = snoopy_outputregistry_getIdFromName(n.p); }
         fputs("ok\t", o); outcome(o, ret); fprintf(o, "\t%d\t%d", ex == SNOOPY_TRUE ? 1 : 0, id);
+    } else if (!strcmp(f[0], "dispatch") && nf >= 3) {
+        /* snoopy_outputregistry_dispatch with the configured output set to the given name */
+        vbytes n = parse_bytes(f[2]);
+        static char msg[] = "the message", arg[] = "the-arg";
+        verif_cfg.output = n.p; verif_cfg.output_arg = arg;
+        verif_last_a0 = verif_last_a1 = NULL;
+        int ret = snoopy_outputregistry_dispatch(msg);
+        fputs("ok\t", o); outcome(o, ret);
+        if (verif_calls == 1) fprintf(o, "\t%d", (verif_last_a0 == (const void *)msg && verif_last_a1 == (const void *)arg) ? 1 : 0);
+        else fputs("\t-", o);
     } else if (!strcmp(f[0], "byid") && nf >= 3) {
         int i = atoi(f[2]), ret; const char *nm;
         if (!strcmp(f[1], "ds")) { ret = snoopy_datasourceregistry_callById(i, buf, sizeof buf, ""); nm = snoopy_datasourceregistry_getName(i); }
